@@ -3,7 +3,7 @@
 set -e
 cd "$(dirname "$0")"
 export CARGO_NET_OFFLINE=true
-mkdir -p .build work evidence replays
+mkdir -p .build work evidence replays coq/Gen ocaml/gen
 ( cd harness && cargo build --release --offline 2>&1 | tail -3 )
 .build/target/release/vharness tables coq/Gen/Tables.v
 python3 - <<'PY'
